@@ -341,7 +341,8 @@ func histories(rng *gen.Rand, n int) []historySpec {
 	hs := []historySpec{
 		{name: "single-keys", clients: []clientSpec{{id: idA, pair: 1, sym: 1, hmac: 1}}, poisonPair: 1, poisonSym: 0, logKey: 1},
 		{name: "single-keys+poison-sym", clients: []clientSpec{{id: idA, pair: 1, sym: 1, hmac: 1}, {id: idB, pair: 1, sym: 1, hmac: 1}}, poisonPair: 1, poisonSym: 1, logKey: 1},
-		{name: "rotated", clients: []clientSpec{{id: idA, pair: 3, sym: 2, hmac: 2}, {id: idB, pair: 1, sym: 3, hmac: 1}}, poisonPair: 2, poisonSym: 0, logKey: 2},
+		{name: "rotated-clients", clients: []clientSpec{{id: idA, pair: 3, sym: 2, hmac: 2}, {id: idB, pair: 1, sym: 3, hmac: 1}}, poisonPair: 1, poisonSym: 0, logKey: 2},
+		{name: "rotated-poison", clients: []clientSpec{{id: idA, pair: 1, sym: 1, hmac: 1}}, poisonPair: 2, poisonSym: 0, logKey: 1},
 		{name: "rotated+destroyed", clients: []clientSpec{{id: idA, pair: 2, sym: 3, hmac: 1, destroyRotSym: true}, {id: idB, pair: 2, sym: 2, hmac: 1, destroyCurSym: true}, {id: idC, pair: 2, sym: 1, hmac: 1, destroyCurPair: true}}, poisonPair: 1, poisonSym: 0, logKey: 1},
 	}
 	for i := 0; i < n; i++ {
